@@ -7,6 +7,7 @@ import (
 	"io"
 
 	"github.com/ohler55/slip"
+	"github.com/ohler55/slip/pkg/cl"
 )
 
 func init() {
@@ -98,11 +99,20 @@ func (f *WithZipWriter) Call(s *slip.Scope, args slip.List, depth int) slip.Obje
 	setZipHeader(s, z, args, depth)
 	s2 := s.NewScope()
 	s2.Let(sym, &slip.OutputStream{Writer: z})
+	var exit slip.Object
 	for i := range forms {
-		_ = slip.EvalArg(s2, forms, i, d2)
+		result := slip.EvalArg(s2, forms, i, d2)
+		if _, ok := result.(*slip.ReturnResult); ok {
+			exit = result
+			break
+		}
+		if _, ok := result.(*cl.GoTo); ok {
+			exit = result
+			break
+		}
 	}
 	_ = z.Flush()
 	_ = z.Close()
 
-	return nil
+	return exit
 }
